@@ -320,12 +320,12 @@ PROPS['C11'] = dict(
 )
 
 PROPS['C10'] = dict(
-    families=[dict(name='c10-decode', quick=2500, thorough=200000), dict(name='c10-encode', quick=2500, thorough=200000), dict(name='c10-seeds', quick=1000, thorough=1000)],
+    families=[dict(name='c10-decode', quick=2500, thorough=200000), dict(name='c10-encode', quick=2500, thorough=200000), dict(name='c10-seeds', quick=1000, thorough=1000), dict(name='c10-doubles', quick=144, thorough=720)],
     slice=20,
     rule='decoder direction: datasets drawn as syntax-free descriptions (default and named graphs with IRI and blank node names, nodes shared between graphs, rdf:type incl. blank node types, IRIs under and outside the base, labelled blank nodes, plain / language-tagged / typed literals incl. canonical and non-canonical integers and booleans, lists incl. empty lists and lists of lists); '
          'each written as JSON-LD by the harness writer with random choices: no context (expanded), top-level array / single object / @graph; inline context with prefixes (simple and expanded, @prefix true/false, namespaces without a gen-delim), terms (simple, expanded, compact-IRI terms), type coercion @id / @vocab / datatype, term @language (tag and null), @container @list / @set, @vocab (and null), @base (absolute and relative), default @language (and null), keyword aliases, a term mapped to null, context arrays starting with null, nested contexts on node objects; '
          'embedded nodes, anonymous nodes, graph objects carrying properties, anonymous graph objects, native booleans and integers, value objects, @set, nulls in arrays, @type for rdf:type; key order shuffled, JSON text with varying white space and escapes (\\uXXXX, surrogate pairs); decoded in the default, json-ld-1.1 and (when no 1.1-only construct is used) json-ld-1.0 processing modes, offset capture on 1/4; '
-         'encoder direction: default-graph datasets of the C02 generator (twins, lists, every literal kind, IRIs of every shape) with at most one "#" per IRI, written by jsonld.Encoder under base x prefixes x buffered x labeller, decoded again; xsd:integer and xsd:double literals compared by value; the Coq model reads the encoder output as an independent decoder; c10-seeds: the input documents of the W3C expand and toRdf suites shipped in the repository which the decoder accepts without options: the model reads those inside its part of JSON-LD (about 200; it declines the others)',
+         'encoder direction: default-graph datasets of the C02 generator (twins, lists, every literal kind, IRIs of every shape) with at most one "#" per IRI, written by jsonld.Encoder under base x prefixes x buffered x labeller, decoded again; xsd:integer and xsd:double literals compared by value; the Coq model reads the encoder output as an independent decoder; c10-seeds: the input documents of the W3C expand and toRdf suites shipped in the repository which the decoder accepts without options: the model reads those inside its part of JSON-LD (about 200; it declines the others); native JSON numbers with a fraction or exponent (c10-doubles: a table of spellings in four positions) must come out as xsd:double in the canonical lexical form (end-to-end oracle only: the model keeps floating point out)',
     trusted_base=['model/JsonLd.v: the JSON-LD 1.1 mapping from JSON trees to quads for the constructs listed (everything else answers None); JSON text, remote contexts, scoped contexts, @reverse, @nest, @included, @index, @json, @direction and non-integer numbers are not modelled',
                   'the harness JSON-LD writer and its own reading of IRI expansion (ctx.expand), which decides the expected dataset; encoding/json for re-reading the encoder output into the token form'],
     assumptions=['numbers are drawn within +-2^53 (JSON numbers are doubles)', 'an IRI whose scheme is a prefix of the context cannot be written under that context; such draws are discarded'],
